@@ -1,7 +1,7 @@
 ---------------------------- MODULE Limits_Judge ----------------------------
 (* TLC as judge for C08: three observation files written by `limits run`.                     *)
 (*  rlobs:  [runner, rec, name, inh, got, status, errlen, setup]   getrlimit seen by the probe *)
-(*  vobs:   [runner, name, prog, arg, cpu, fsize, tl_us, ml_kib, limited,                      *)
+(*  vobs:   [runner, name, scen, end, prog, arg, cpu, fsize, tl_us, ml_kib, limited, cancelled, *)
 (*           status, exit, time_us, mem_kib, report, setup]        limit verdict runs          *)
 (*  cobs:   [n, volume, chunk, delay_us, written, werrno, wsig, wexit, blocked,                *)
 (*           retained, done, prefix, setup]                        capped collector            *)
@@ -41,6 +41,8 @@ VEnd(o) ==
   IF Len(o.report) = 0 THEN [k |-> "none", n |-> 0]
   ELSE LET l == LastLine(o) IN
     CASE l.t = "exiting"                            -> ExitEnd(l.v)
+      [] l.t = "raising"                            -> SigEnd(l.v)       \* hardware fault after the work was done
+      [] l.t = "ready" /\ o.cancelled               -> SigEnd(SIGKILL)   \* blocked until the caller cancelled: caller kill
       [] l.t = "growing"                            -> SigEnd(SIGXFSZ)   \* gone in the middle of write()
       [] l.t = "burning" /\ o.arg = 0 /\ o.cpu > 0  -> SigEnd(SIGXCPU)   \* SIGXCPU or the hard limit's SIGKILL: both TLE
       [] OTHER                                      -> [k |-> "unknown", n |-> 0]
@@ -64,10 +66,10 @@ JudgeV(o) ==
   ELSE LET exp == ExpectedStatus(o.limited, o.time_us, o.mem_kib, o.tl_us, o.ml_kib, e)
            wit == HasTag(o, "utime_us") /\ HasTag(o, "maxrss_kib") IN
        \* the scenario must exercise what its name says, otherwise the run proves nothing
-       IF /\ o.name = "fsize-over" /\ ~(e = SigEnd(SIGXFSZ) \/ (Pid1(o.runner) /\ e = ExitEnd(97))) THEN V("model", "scenario", -1)
-       ELSE IF o.name = "mem-over" /\ ~(wit /\ TagVal(o, "maxrss_kib") > o.ml_kib) THEN V("model", "scenario", -1)
-       ELSE IF o.name = "time-over" /\ ~(wit /\ TagVal(o, "utime_us") > o.tl_us) THEN V("model", "scenario", -1)
-       ELSE IF o.name = "cpu-rlimit" /\ e.k # "signal" THEN V("model", "scenario", -1)
+       IF /\ o.scen = "fsize-over" /\ ~(e = SigEnd(SIGXFSZ) \/ (Pid1(o.runner) /\ e = ExitEnd(97))) THEN V("model", "scenario", -1)
+       ELSE IF o.scen = "mem-over" /\ ~(wit /\ TagVal(o, "maxrss_kib") > o.ml_kib) THEN V("model", "scenario", -1)
+       ELSE IF o.scen = "time-over" /\ ~(wit /\ TagVal(o, "utime_us") > o.tl_us) THEN V("model", "scenario", -1)
+       ELSE IF o.scen = "cpu-rlimit" /\ e.k # "signal" THEN V("model", "scenario", -1)
        \* the runner's measurements can not be below what the program saw itself before it ended
        ELSE IF wit /\ (o.mem_kib < TagVal(o, "maxrss_kib") \/ o.time_us < TagVal(o, "utime_us"))
             THEN V("viol", "measurement-below-the-program's-own", -1)
